@@ -22,8 +22,9 @@ Stay == UNCHANGED hs
 InitH(h) == hs[h] = "null" /\ hs' = [hs EXCEPT ![h] = "live-empty"] /\ Op([f |-> "init", h |-> h])
 FreeH(h) == hs' = [hs EXCEPT ![h] = "null"] /\ Op([f |-> "free", h |-> h])
 ReadH(h, file, mem) ==
-    /\ (mem => hs[h] # "null") \/ ~mem
-    /\ hs' = [hs EXCEPT ![h] = IF mem THEN (IF hs[h] = "live-empty" /\ file \in ValidFiles THEN "live" ELSE hs[h])
+    \* readsplinefitstable_mem on a null handle creates the table itself; it stays (empty) when the read fails
+    /\ hs' = [hs EXCEPT ![h] = IF mem THEN (IF hs[h] \in {"live-empty", "null"} /\ file \in ValidFiles THEN "live"
+                                            ELSE IF hs[h] = "null" THEN "live-empty" ELSE hs[h])
                                 ELSE (IF file \in ValidFiles THEN "live" ELSE "null")]
     /\ Op([f |-> IF mem THEN "read_mem" ELSE "read", h |-> h, file |-> file])
 OnLive(h, name, arg) == hs[h] = "live" /\ Stay /\ Op([f |-> name, h |-> h, arg |-> arg])
